@@ -30,14 +30,27 @@ type walkEvent struct {
 	Ended string    `json:"ended"` // why the walk stopped: nonext | error | stuck
 }
 
+// msub: the MENU is the sink (MSINK): its items are the rows, paged with their own next / previous entries
+func msubNode(items []string) []Instr {
+	code := []Instr{}
+	for i, it := range items {
+		code = append(code, Instr{Op: "MOUT", A: it, B: fmt.Sprint(30 + i)})
+	}
+	return append(code, Instr{Op: "MSINK"}, Instr{Op: "MNEXT", A: "nx", B: "11"}, Instr{Op: "MPREV", A: "pv", B: "22"}, Instr{Op: "HALT"},
+		Instr{Op: "INCMP", A: ">", B: "11"}, Instr{Op: "INCMP", A: "<", B: "22"}, Instr{Op: "INCMP", A: "_", B: "0"})
+}
+
 func walkProgram(rows1, rows2 []string, size int) *Program {
 	p := &Program{Name: "walk", Root: "root", FlagCount: 2, OutputSize: size, Nodes: map[string][]Instr{
 		"root": {{Op: "LOAD", A: "txt", N: 0}, {Op: "MAP", A: "txt"}, {Op: "MNEXT", A: "next", B: "11"}, {Op: "MPREV", A: "prev", B: "22"}, {Op: "MOUT", A: "other", B: "1"}, {Op: "HALT"},
-			{Op: "INCMP", A: ">", B: "11"}, {Op: "INCMP", A: "<", B: "22"}, {Op: "INCMP", A: "sub", B: "1"}},
+			{Op: "INCMP", A: ">", B: "11"}, {Op: "INCMP", A: "<", B: "22"}, {Op: "INCMP", A: "sub", B: "1"}, {Op: "INCMP", A: "msub", B: "3"}, {Op: "INCMP", A: "plain", B: "4"}},
 		"sub": {{Op: "LOAD", A: "two", N: 0}, {Op: "MAP", A: "two"}, {Op: "MNEXT", A: "fwd", B: "11"}, {Op: "MPREV", A: "back", B: "22"}, {Op: "MOUT", A: "up", B: "0"}, {Op: "HALT"},
 			{Op: "INCMP", A: ">", B: "11"}, {Op: "INCMP", A: "<", B: "22"}, {Op: "INCMP", A: "_", B: "0"}},
 		"_catch": {{Op: "HALT"}, {Op: "INCMP", A: "_", B: "*"}},
-	}, Templates: map[string]string{"root": "R\n{{.txt}}", "sub": "S\n{{.two}}"}, Syms: map[string][]SymResult{
+		// a node without any menu, shown after the menu-sink node
+		"plain": {{Op: "LOAD", A: "small", N: 8}, {Op: "MAP", A: "small"}, {Op: "HALT"}, {Op: "INCMP", A: "msub", B: "3"}, {Op: "INCMP", A: "_", B: "*"}},
+	}, Templates: map[string]string{"root": "R\n{{.txt}}", "sub": "S\n{{.two}}", "msub": "M", "plain": "P {{.small}}"}, Syms: map[string][]SymResult{
+		"small": {{Content: "pq", Set: []int{}, Reset: []int{}}},
 		"txt": {{Content: strings.Join(rows1, "\n"), Set: []int{}, Reset: []int{}}},
 		"two": {{Content: strings.Join(rows2, "\n"), Set: []int{}, Reset: []int{}}},
 	}}
@@ -94,14 +107,14 @@ func parseWalkPage(out string, head string, ordinary string, nextLine string, pr
 			p.Next = true
 		} else if last == prevLine && !p.Prev {
 			p.Prev = true
-		} else if last == ordinary && !haveOrd {
+		} else if ordinary != "" && last == ordinary && !haveOrd {
 			haveOrd = true
 		} else {
 			break
 		}
 		lines = lines[:len(lines)-1]
 	}
-	if !haveOrd {
+	if ordinary != "" && !haveOrd {
 		p.StaticOk = false
 	}
 	p.Rows = lines
@@ -136,12 +149,24 @@ func cmdWalkRun(args []string) error {
 		rows1, rows2 := genRows(), genRows()
 		size := 32 + rng.Intn(68)
 		p := walkProgram(rows1, rows2, size)
+		nitems := 4 + rng.Intn(9)
+		var items, mrows []string
+		for i := 0; i < nitems; i++ {
+			it := strings.Repeat(string(rune('k'+i)), 1+rng.Intn(14))
+			items = append(items, it)
+			mrows = append(mrows, fmt.Sprintf("%d:%s", 30+i, it))
+		}
+		p.Nodes["msub"] = msubNode(items)
+		p.build()
 		mode := []string{"L", "P"}[si%2]
 		w := &walker{p: p, mode: mode, sid: fmt.Sprintf("w%d", si), store: newMemStore()}
 		lastOut := ""
 		walk := func(first string, node string, visit int, rows []string, head, ord, nl, pl string) bool {
 			ev := walkEvent{Ev: "walk", Sid: w.sid, Mode: mode, Node: node, Visit: visit, Rows: rows,
 				Cfg: renderCfg{Size: size, Tpl: len(head) + 1, TplStatic: len(head) + 1, Menu: len(ord), NextLen: len(nl), PrevLen: len(pl)}}
+			if node == "msub" {
+				ev.Cfg.Msink, ev.Cfg.Tpl, ev.Cfg.TplStatic = true, len(head), len(head)
+			}
 			for _, r := range rows {
 				ev.Cfg.Rows = append(ev.Cfg.Rows, len(r))
 			}
@@ -201,7 +226,42 @@ func cmdWalkRun(args []string) error {
 		if !ok {
 			continue
 		}
-		walk("0", "root", 2, rows1, "R", "1:other", "11:next", "22:prev")
+		if !walk("0", "root", 2, rows1, "R", "1:other", "11:next", "22:prev") {
+			continue
+		}
+		for k := 0; k < 40 && ok && strings.Contains(lastOut, "22:prev"); k++ {
+			o, _, failed := w.request("22")
+			if failed {
+				ok = false
+			}
+			lastOut = o
+		}
+		if !ok {
+			continue
+		}
+		// a node with no sink and no menu, then - straight from it - the menu-sink node, back to the plain node, and the
+		// first node once more: every page is rendered by objects that have just rendered a page of another kind
+		plainOk := func(in string, visit int) bool {
+			o, cont, failed := w.request(in)
+			if failed || !cont || o != "P pq" {
+				// reported as a failing page reached by a selector that was offered (index 1 of a two-page family)
+				out.put(walkEvent{Ev: "walk", Sid: w.sid, Mode: mode, Node: "plain", Visit: visit, Rows: []string{}, Cfg: renderCfg{Size: size, Rows: []int{}},
+					Pages: []pageRec{{Kind: "ok", Rows: []string{}}, {Kind: "err", Why: "plain node: " + o, Rows: []string{}}}, Ended: "error"})
+				nwalks++
+				return false
+			}
+			return true
+		}
+		if !plainOk("4", 1) {
+			continue
+		}
+		if !walk("3", "msub", 1, mrows, "M", "", "11:nx", "22:pv") {
+			continue
+		}
+		if !plainOk("0", 2) {
+			continue
+		}
+		walk("0", "root", 3, rows1, "R", "1:other", "11:next", "22:prev")
 	}
 	summary(map[string]any{"sessions": nsess, "walks": nwalks})
 	return nil
